@@ -34,6 +34,7 @@ import (
 type svc struct {
 	ln     net.Listener
 	mode   string // "write-then-close" | "read-all"
+	slow   bool   // read-all: the service consumes 16 KiB per millisecond
 	n      int
 	mu     sync.Mutex
 	got    [][]byte
@@ -53,7 +54,25 @@ func (s *svc) serve() {
 				c.Write(world.Payload(0x61, 0, s.n))
 				return
 			}
-			b, err := io.ReadAll(c)
+			var b []byte
+			var err error
+			if s.slow {
+				buf := make([]byte, 16384)
+				for {
+					var n int
+					n, err = c.Read(buf)
+					b = append(b, buf[:n]...)
+					if err != nil {
+						if err == io.EOF {
+							err = nil
+						}
+						break
+					}
+					time.Sleep(time.Millisecond)
+				}
+			} else {
+				b, err = io.ReadAll(c)
+			}
 			s.mu.Lock()
 			s.got = append(s.got, b)
 			s.eof = append(s.eof, err == nil)
@@ -116,7 +135,7 @@ func executeRealChannel(c Case) (kind, detail string) {
 		return "slow", err.Error()
 	}
 	defer ln.Close()
-	s := &svc{ln: ln, mode: mode, n: c.N}
+	s := &svc{ln: ln, mode: mode, n: c.N, slow: c.Pos == "slow-reader"}
 	go s.serve()
 	srvPort := freeTCPPort()
 	sc := servercmd.NewCommand()
@@ -202,6 +221,12 @@ func executeRealChannel(c Case) (kind, detail string) {
 			s.mu.Unlock()
 			if n > before {
 				if string(got) != string(want) {
+					s.mu.Lock()
+					clean := s.eof[n-1]
+					s.mu.Unlock()
+					if !clean && len(got) < len(want) {
+						return 0, "data-lost-before-eof", fmt.Sprintf("the application wrote %d bytes and closed; the service's connection was reset after %d of them instead of delivering the rest and end-of-stream", c.N, len(got))
+					}
 					return 0, "corrupt", fmt.Sprintf("the service received %d bytes before end-of-stream, the application wrote %d", len(got), c.N)
 				}
 				return time.Since(t0), "", ""
@@ -239,6 +264,21 @@ func realChannelCases(r *mc.Run, base int) {
 	sizes := []int{0, 1, 70000}
 	if r.Thorough() {
 		sizes = []int{0, 1, 4096, 70000, 1 << 20}
+	}
+	// the application uploads megabytes and closes at once while the service reads slowly: data
+	// is still queued towards the service when the end of the stream reaches the server
+	for _, ch := range []string{"real-network-channel", "real-socks-channel"} {
+		c := Case{Carrier: ch, Sec: "plain", Closer: "app", N: 8 << 20, Pos: "slow-reader", Other: "none"}
+		if r.Mine(idx) && !r.OverBudget() {
+			kind, detail := executeRealChannel(c)
+			if kind == "slow" || kind == "setup" {
+				r.Inconclusive(c.String() + ": " + detail)
+				r.Eval(1)
+			} else {
+				record(r, c, kind, detail)
+			}
+		}
+		idx++
 	}
 	for _, ch := range []string{"real-network-channel", "real-socks-channel"} {
 		for _, closer := range []string{"target", "app"} {
